@@ -207,6 +207,8 @@ bool FileCachePool::evictOpenedFile(const std::string& name) {
   if (cacheStore) {
     DEFER(cacheStore->release());
     photon::scoped_rwlock rl(cacheStore->rw_lock(), photon::WLOCK);
+    VERIF_COV(C_CACHE_EVICT_OPEN);
+    VERIF_POINT(P_CACHE_EVICT);
     err = cacheStore->evict(0);
   }
   if (err) {
